@@ -573,7 +573,7 @@ MANIFEST = {
             'higher precisions (ascending argsort, j > i, 0-bit skipped, same amount); the '
             'shares reach _reassign_precisions in the original order (permutation typestate); '
             'counters are not float-stepped / truncated. Correctness of the greedy reassignment '
-            'itself is not decided.',
+            'itself is not decided. A reassignment pass leaves an iteration early only on facts about the working copy it rewrites.',
     'note': 'R20c / R20d / R20g violations of the pinned tree are repaired by fix: commits; the '
             'first-pass claim defect of _reassign_precisions (R20f) is a known finding.',
     'technique': 'guard analysis + index provenance + permutation typestate + inexact-counter '
